@@ -45,6 +45,13 @@ func newTransport(sim *Sim) *transport {
 func (tr *transport) Read(p []byte) (int, error) {
 	if len(tr.rest) == 0 {
 		b := <-tr.ch
+		if tr.sim.Now()%latticeStep != offGUI {
+			// the line had been waiting while the loop was busy (a command that
+			// blocks, e.g. go during a slow search set-up): the loop takes it
+			// over in an instant of its own, not in the instant of whichever
+			// engine goroutine released it
+			tr.sim.ActorSleep(offLoop, 1)
+		}
 		tr.noteIn(b)
 		tr.rest = b
 	}
